@@ -568,22 +568,40 @@ impl RuleCatalog {
         index: usize,
         new_rule: SerializableRule,
     ) -> Result<(), String> {
-        if let Some(rule_def) = self.rules.get_mut(name) {
-            if index >= rule_def.rules.len() {
-                return Err(format!(
-                    "Clause index {} out of bounds. Rule '{}' has {} clause(s).",
-                    index + 1,
-                    name,
-                    rule_def.rules.len()
-                ));
-            }
-            rule_def.rules[index] = new_rule;
-            self.dirty = true;
-            self.save()?;
-            Ok(())
-        } else {
-            Err(format!("Rule '{name}' does not exist"))
+        let Some(rule_def) = self.rules.get(name) else {
+            return Err(format!("Rule '{name}' does not exist"));
+        };
+        if index >= rule_def.rules.len() {
+            return Err(format!(
+                "Clause index {} out of bounds. Rule '{}' has {} clause(s).",
+                index + 1,
+                name,
+                rule_def.rules.len()
+            ));
         }
+
+        // Same checks as `register_rule`: single-clause safety, then stratification of the
+        // whole catalog with the clause substituted
+        let ast_rule = new_rule.to_rule();
+        validate_rule(&ast_rule, name)?;
+        let mut all_rules: Vec<Rule> = Vec::new();
+        for (def_name, def) in &self.rules {
+            for (i, clause) in def.rules.iter().enumerate() {
+                if def_name == name && i == index {
+                    all_rules.push(ast_rule.clone());
+                } else {
+                    all_rules.push(clause.to_rule());
+                }
+            }
+        }
+        validate_rules_stratification(&all_rules)?;
+
+        if let Some(rule_def) = self.rules.get_mut(name) {
+            rule_def.rules[index] = new_rule;
+        }
+        self.dirty = true;
+        self.save()?;
+        Ok(())
     }
 
     /// Remove a specific clause from a rule by index (0-based)
